@@ -267,5 +267,102 @@ func c04UsageLattice(c *core.Ctx, r *core.Report) {
 			}
 		}
 	}
-	r.Floor("USAGEJOIN", "stores into the column usage map", n, 5)
+	r.Floor("USAGEJOIN", "stores into the column usage map", n, 3)
+}
+
+// (7) DCBYTES — dc() merges one HyperLogLog sketch per segment, and a segment is answered either from its .sst
+// (sketch filled at ingest) or from its records (sketch filled at query time by stats.AddSegStatsNums, which hashes the
+// 8 value bytes of a number).  Both sides must hash the same bytes for the same number, or a value present in two
+// segments that take different paths is counted twice.  At ingest the bytes handed to addSegStatsNums for a number
+// taken from a parsed event are the 8 value bytes of its 9-byte encoding (the slice [1:9] after the type byte).
+func c04DistinctCountBytes(c *core.Ctx, r *core.Report) {
+	fn := c.Fn(pkgWriter, "SegStore.doLogEventFilling")
+	add := c.Obj(pkgWriter, "addSegStatsNums")
+	calls := callsTo(fn, add)
+	r.Floor("SIBLING", "numeric statistics updates in doLogEventFilling", len(calls), 1)
+	for i, call := range calls {
+		arg := call.Call.Args[len(call.Call.Args)-1]
+		ok := false
+		if sl, isSlice := arg.(*ssa.Slice); isSlice && sl.Low != nil && sl.High != nil {
+			lo, ok1 := core.ConstIntValue(sl.Low)
+			hi, ok2 := core.ConstIntValue(sl.High)
+			ok = ok1 && ok2 && lo == 1 && hi == 9
+		}
+		r.Check(ok, "SIBLING", fmt.Sprintf("%s:distinct-count-bytes#%d-are-the-8-value-bytes", shortFn(fn), i+1), c.Pos(call.Pos()),
+			"the sketch is fed the slice [1:9] of the number's 9-byte encoding",
+			"the bytes hashed into the column's distinct-count sketch at ingest are not provably the 8 value bytes of the number (the query-time side hashes exactly those): with a different byte string per value the ingest-time and the recomputed sketches disagree on every value, and dc() over segments answered by different paths counts shared values twice")
+	}
+}
+
+// checkRunningExtremes — ACCUM (shared by C04 and C06): a running minimum / maximum kept in a struct field is folded as
+// F = min/max(F, x).  A fold that reads a DIFFERENT field of the same object on its right-hand side (F = max(G, x))
+// forgets what F had accumulated; for a value that is built over several batches the result then depends on how the
+// input was cut into batches.  Every store of math.Min / math.Max (or the min / max builtins) into a field, one of whose
+// arguments is a load of a field of the same object, loads that same field.
+func checkRunningExtremes(c *core.Ctx, r *core.Report) {
+	n := 0
+	type hit struct {
+		fn *ssa.Function
+		st *ssa.Store
+		f  string
+		g  string
+	}
+	var hits []hit
+	for _, fn := range c.RepoFunctions() {
+		for _, b := range fn.Blocks {
+			for _, in := range b.Instrs {
+				st, ok := in.(*ssa.Store)
+				if !ok {
+					continue
+				}
+				fa, ok := st.Addr.(*ssa.FieldAddr)
+				if !ok {
+					continue
+				}
+				call, ok := st.Val.(*ssa.Call)
+				if !ok {
+					continue
+				}
+				isExt := false
+				if f := core.CalleeFunc(call); f != nil && f.Pkg() != nil && f.Pkg().Path() == "math" && (f.Name() == "Max" || f.Name() == "Min") {
+					isExt = true
+				}
+				if bi, ok := call.Call.Value.(*ssa.Builtin); ok && (bi.Name() == "max" || bi.Name() == "min") {
+					isExt = true
+				}
+				if !isExt {
+					continue
+				}
+				F := core.FieldOfAddr(fa)
+				var other *ssa.FieldAddr
+				same := false
+				for _, a := range call.Call.Args {
+					if ld, ok := a.(*ssa.UnOp); ok {
+						if fa2, ok := ld.X.(*ssa.FieldAddr); ok && fa2.X == fa.X {
+							if core.FieldOfAddr(fa2) == F {
+								same = true
+							} else {
+								other = fa2
+							}
+						}
+					}
+				}
+				if !same && other == nil {
+					continue
+				}
+				n++
+				if !same && other != nil {
+					hits = append(hits, hit{fn, st, F.Name(), core.FieldOfAddr(other).Name()})
+				}
+			}
+		}
+	}
+	sort.Slice(hits, func(i, j int) bool { return hits[i].fn.String()+hits[i].f < hits[j].fn.String()+hits[j].f })
+	for _, h := range hits {
+		r.Violation("ACCUM", fmt.Sprintf("%s:running-extreme(%s)-folds-its-own-field", shortFn(h.fn), h.f), c.Pos(h.st.Pos()), fmt.Sprintf("the running extreme %s is recomputed from the field %s and the new value: what %s had accumulated from earlier batches is forgotten, so the final value (and everything derived from it, e.g. an automatic bin span) depends on how the stream was cut into batches", h.f, h.g, h.f))
+	}
+	if len(hits) == 0 {
+		r.OK("ACCUM", "running-extremes-fold-their-own-field", "-", fmt.Sprintf("%d min/max folds into struct fields, each reads the field it writes", n))
+	}
+	r.Floor("ACCUM", "min/max folds into struct fields", n, 4)
 }
